@@ -60,6 +60,10 @@ def run_single(prop, seed, preset, want_case, schema_knobs=None, doc_knobs=None,
     a seeded schedule and compare.  faults_fn(case, tape, fault_free_plan) -> {path: kind}."""
     tape = Tape(seed, preset)
     cfgt = tape.sub("cfg")
+    if callable(schema_knobs):
+        schema_knobs = schema_knobs(tape.sub("knobs"))
+    if callable(doc_knobs):
+        doc_knobs = doc_knobs(tape.sub("knobs"))
     case = gen_case(tape, schema_knobs, doc_knobs, vars_knobs)
     cfg = pick_engine_cfg(cfgt)
     sched = pick_scheduler(cfgt)
